@@ -41,3 +41,20 @@ __CPROVER_ensures(*bin_len <= bin_maxlen)
 __CPROVER_ensures(__CPROVER_return_value != 0 ==> *bin_len == 0)
 __CPROVER_ensures(__CPROVER_same_object(*b64_end, b64) && __CPROVER_POINTER_OFFSET(*b64_end) - __CPROVER_POINTER_OFFSET(b64) <= b64_len)
 ;
+
+/* ---- functional contract of sodium_hex2bin in strict mode (no ignore set, no end pointer), ghost-index form.
+ * Soundness for EVERY text: success implies the text is an even number of hex digits, the reported length is half of it
+ * and every output byte is the value of its digit pair. (Completeness is decided by the bounded differential obligation.) */
+extern size_t g_k, g_m;
+#define V_ISHEX(c) (((c) >= '0' && (c) <= '9') || ((c) >= 'a' && (c) <= 'f') || ((c) >= 'A' && (c) <= 'F'))
+#define V_HV(c) ((c) >= '0' && (c) <= '9' ? (c) - '0' : ((c) >= 'a' && (c) <= 'f' ? (c) - 'a' + 10 : (c) - 'A' + 10))
+int sodium_hex2bin_strict_spec(unsigned char *const bin, const size_t bin_maxlen, const char *const hex, const size_t hex_len,
+                               const char *const ignore, size_t *const bin_len, const char **const hex_end)
+__CPROVER_requires(bin_maxlen <= 4096 && hex_len <= 8192 && ignore == NULL && hex_end == NULL)
+__CPROVER_requires(__CPROVER_is_fresh(bin, bin_maxlen) && __CPROVER_is_fresh(hex, hex_len) && __CPROVER_is_fresh(bin_len, sizeof(size_t)))
+__CPROVER_assigns(__CPROVER_object_upto(bin, bin_maxlen), *bin_len, v_errno)
+__CPROVER_ensures(__CPROVER_return_value == 0 || __CPROVER_return_value == -1)
+__CPROVER_ensures(__CPROVER_return_value == 0 ==> ((hex_len & 1) == 0 && *bin_len == hex_len / 2 && *bin_len <= bin_maxlen))
+__CPROVER_ensures((__CPROVER_return_value == 0 && g_k < hex_len) ==> V_ISHEX(hex[g_k]))
+__CPROVER_ensures((__CPROVER_return_value == 0 && g_m < hex_len / 2) ==> bin[g_m] == (unsigned char) (16 * V_HV(hex[2 * g_m]) + V_HV(hex[2 * g_m + 1])))
+;
